@@ -106,6 +106,7 @@ class LtlAstParserVisitor(LtlParserVisitor):
             node = Variable(id_head, id_tail, var_io)
             # a variable that a formula reads is an input, also when an earlier assertion writes to one of its fields
             self.free_vars.add(id_head)
+            self.read_vars.add(id_head)
             self.phi_name_to_node_dict[node.name] = node
 
         return node
@@ -368,7 +369,7 @@ class LtlAstParserVisitor(LtlParserVisitor):
         id_head = id.split('.')[0]
         # the name of an assertion may also be the name of an input signal that this or an earlier formula reads
         # (x = prev(x); an un-named assertion over a signal called out): that signal stays an input
-        used_as_input = any(isinstance(n, Variable) and n.var == id_head for n in self.phi_name_to_node_dict.values())
+        used_as_input = id_head in self.read_vars
         self.phi_name_to_node_dict[id] = out
 
         self.var_subspec_dict[id] = out
